@@ -65,10 +65,29 @@ def z(v):
     if isinstance(v, int):
         return z3.IntVal(int(v))
     if isinstance(v, str):
-        return z3.StringVal(v)
+        return zstrval(v)
     if isinstance(v, z3.ExprRef):
         return v
     raise HarnessError('cannot lift %r to a solver term' % (v,))
+
+
+def zstrval(s):
+    """z3 literal for a Python str (the API mis-escapes characters beyond the BMP)"""
+    if all(ord(c) <= 0xFFFF for c in s):
+        return z3.StringVal(s)
+    parts = []
+    cur = ''
+    for c in s:
+        if ord(c) <= 0xFFFF:
+            cur += c
+        else:
+            if cur:
+                parts.append(z3.StringVal(cur))
+                cur = ''
+            parts.append(z3.Unit(z3.CharVal(ord(c))))
+    if cur:
+        parts.append(z3.StringVal(cur))
+    return z3.Concat(*parts) if len(parts) > 1 else parts[0]
 
 
 def zbool(v):
@@ -383,21 +402,85 @@ def deep_sym(v, depth=4, _seen=None):
 # --------------------------------------------------------------------------------------- engine
 
 class PathResult:
-    __slots__ = ('pc', 'kind', 'value', 'decisions', 'model')
+    __slots__ = ('pc', 'kind', 'value', 'decisions', 'model', 'zmodel')
 
-    def __init__(self, pc, kind, value, decisions, model=None):
+    def __init__(self, pc, kind, value, decisions, model=None, zmodel=None):
         self.pc, self.kind, self.value, self.decisions = pc, kind, value, decisions
-        self.model = model
+        self.model = model      # dict name -> z3 value
+        self.zmodel = zmodel    # z3 model object (needed when uninterpreted functions occur)
+
+
+def term_symbols(e, _cache={}):
+    """(consts, has_uf): the uninterpreted constants of a term (as z3 exprs keyed by name) and
+    whether it applies an uninterpreted function"""
+    key = e.get_id()
+    r = _cache.get(key)
+    if r is not None and r[2].eq(e):
+        return r[0], r[1]
+    consts, ufs = {}, set()
+    seen = set()
+    todo = [e]
+    while todo:
+        x = todo.pop()
+        i = x.get_id()
+        if i in seen:
+            continue
+        seen.add(i)
+        if z3.is_app(x) and x.decl().kind() == z3.Z3_OP_UNINTERPRETED:
+            if x.num_args() == 0:
+                consts[x.decl().name()] = x
+            else:
+                ufs.add(x.decl().name())
+        if z3.is_quantifier(x):
+            todo.append(x.body())
+        else:
+            todo.extend(x.children())
+    if len(_cache) > 200000:
+        _cache.clear()
+    _cache[key] = (consts, ufs, e)
+    return consts, ufs
+
+
+def _default_value(c):
+    s = c.sort()
+    if s == z3.IntSort():
+        return z3.IntVal(0)
+    if s == z3.BoolSort():
+        return z3.BoolVal(False)
+    if s == z3.StringSort():
+        return z3.StringVal('')
+    raise HarnessError('no default value for sort %s' % s)
+
+
+class _DictModel:
+    """model given as {name: python value} (from cvc5)"""
+
+    def __init__(self, vals):
+        self.vals = vals
+
+    def eval(self, c, model_completion=True):
+        v = self.vals.get(c.decl().name()) if z3.is_const(c) else None
+        if v is None:
+            if not z3.is_const(c):
+                raise HarnessError('dictionary model can only evaluate constants')
+            return _default_value(c)
+        if c.sort() == z3.IntSort():
+            return z3.IntVal(int(v))
+        if c.sort() == z3.BoolSort():
+            return z3.BoolVal(bool(v))
+        return zstrval(v)
 
 
 class Engine:
-    """Depth-first exploration of the decision tree of a harness by deterministic re-execution."""
+    """Depth-first exploration of the decision tree of a harness by deterministic re-execution.
 
-    def __init__(self, branch_timeout_ms=250, max_paths=20000, seed=0, max_decisions=400):
-        self.solver = z3.Solver()
-        self.solver.set('timeout', branch_timeout_ms)
+    Feasibility questions are answered (1) by evaluating the condition under a known model of the
+    path condition, else (2) by a solver query restricted to the conjuncts of the path condition
+    that share variables with the condition (constraint independence)."""
+
+    def __init__(self, branch_timeout_ms=400, max_paths=20000, seed=0, max_decisions=400):
         self.branch_timeout_ms = branch_timeout_ms
-        self.solver.set('random_seed', seed)
+        self.seed = seed
         self.queries = 0
         self.query_time = 0.0
         self.unknown_branches = 0
@@ -406,15 +489,20 @@ class Engine:
         self.paths = 0
         self.trace = []
         self.pc = []
-        self.model = None
-        self._last_model = None
+        self.pc_syms = []       # per conjunct: frozenset of symbol names ("f:" prefix for functions)
+        self.mvals = None       # name -> z3 value: a model of the path condition, or None if unknown
+        self.uf_model = None    # z3 model object when uninterpreted functions are involved
+        self._last = None
         self.pos = 0
         self.vars = {}          # name -> z3 const, per path (deterministic names)
+        self.char_free = {}     # string variable name -> characters it certainly does not contain
         self._counter = {}
         self.on_path_end = []   # callbacks (generator threads cleanup)
-        self.cvc5_branch = True
+        self.cvc5_first = True
+        self.cvc5_branch = False
         self.cvc5_branch_timeout = 3.0
         self.cvc5_branch_queries = 0
+        self.eval_hits = 0
 
     # ---- variables
     def _name(self, base):
@@ -446,65 +534,148 @@ class Engine:
         # result of formatting: an arbitrary string nobody may depend on
         return self.new_str('_' + tag)
 
-    # ---- path condition
-    # `self.model` is a model of the current path condition whenever it is not None; it lets most
-    # feasibility questions be answered by evaluation instead of a solver call.
-    def _holds(self, cond):
-        if self.model is None:
+    # ---- symbols and slices
+    @staticmethod
+    def _syms(e):
+        consts, ufs = term_symbols(e)
+        return frozenset(consts) | frozenset('f:' + u for u in ufs)
+
+    def slice_for(self, conds):
+        """the conjuncts of the path condition connected (through shared symbols) to conds"""
+        closure = set()
+        for c in conds:
+            closure |= self._syms(c)
+        chosen = [False] * len(self.pc)
+        changed = True
+        while changed:
+            changed = False
+            for i, sy in enumerate(self.pc_syms):
+                if not chosen[i] and (sy & closure):
+                    chosen[i] = True
+                    if not sy <= closure:
+                        closure |= sy
+                    changed = True
+        return [self.pc[i] for i in range(len(self.pc)) if chosen[i]], closure
+
+    # ---- models
+    def _eval(self, cond):
+        """truth of cond under the current model, or None when not determined"""
+        if self.mvals is None:
             return None
+        consts, ufs = term_symbols(cond)
+        if ufs:
+            return None
+        subs = [(c, self.mvals.get(n) if self.mvals.get(n) is not None else _default_value(c))
+                for n, c in consts.items()]
         try:
-            v = self.model.eval(cond, model_completion=True)
+            v = z3.simplify(z3.substitute(cond, *subs)) if subs else z3.simplify(cond)
         except z3.Z3Exception:
             return None
         if z3.is_true(v):
+            self.eval_hits += 1
             return True
         if z3.is_false(v):
+            self.eval_hits += 1
             return False
         return None
+
+    def _solve(self, assertions, timeout_ms):
+        """-> (status, model) where model answers .eval(const, model_completion=True)"""
+        from . import solve
+        strings = solve._uses_strings(assertions)
+        uf = any(term_symbols(a)[1] for a in assertions)
+        if strings and not uf and self.cvc5_first:
+            st, vals = solve.cvc5_inproc(assertions, max(timeout_ms, 1500))
+            if st == 'sat':
+                return st, _DictModel(vals)
+            if st == 'unsat':
+                return st, None
+        s = z3.Solver()
+        s.set('timeout', timeout_ms)
+        s.set('random_seed', self.seed)
+        s.add(*assertions)
+        r = str(s.check())
+        return r, (s.model() if r == 'sat' else None)
+
+    def _check(self, extra, timeout_ms=None):
+        """satisfiability of pc + extra -> (status, model-update dict or None)"""
+        self.queries += 1
+        t = time.time()
+        sl, closure = self.slice_for(extra) if extra else (list(self.pc), None)
+        q = sl + list(extra)
+        r, m = self._solve(q, timeout_ms or self.branch_timeout_ms)
+        upd = None
+        if r == 'sat':
+            upd = {}
+            has_uf = False
+            for a in q:
+                consts, ufs = term_symbols(a)
+                has_uf = has_uf or bool(ufs)
+                for n, c in consts.items():
+                    if n not in upd:
+                        upd[n] = m.eval(c, model_completion=True)
+            if has_uf:
+                upd = None      # function interpretations cannot be kept in the dictionary model
+        elif r == 'unknown' and self.cvc5_branch:
+            from . import solve
+            if solve._uses_strings(q):
+                self.cvc5_branch_queries += 1
+                c = solve._WORKER.check(q, self.cvc5_branch_timeout)
+                r = c.status
+                if r == 'sat':
+                    upd = self._upd_from_py(q, c.model)
+        self.query_time += time.time() - t
+        return r, upd
+
+    def _upd_from_py(self, q, pyvals):
+        upd = {}
+        for a in q:
+            consts, ufs = term_symbols(a)
+            if ufs:
+                return None
+            for n, c in consts.items():
+                if n in upd:
+                    continue
+                v = pyvals.get(n)
+                if v is None:
+                    upd[n] = _default_value(c)
+                elif c.sort() == z3.IntSort():
+                    upd[n] = z3.IntVal(int(v))
+                elif c.sort() == z3.BoolSort():
+                    upd[n] = z3.BoolVal(bool(v))
+                else:
+                    upd[n] = zstrval(v)
+        return upd
+
+    def _apply(self, upd):
+        if upd is None or self.mvals is None:
+            self.mvals = None
+        else:
+            self.mvals.update(upd)
+
+    # ---- path condition
+    def _push(self, cond):
+        self.pc.append(cond)
+        self.pc_syms.append(self._syms(cond))
 
     def add(self, cond, check=True):
         cond = _simp(cond)
         if z3.is_true(cond):
             return
-        self.pc.append(cond)
-        self.solver.add(cond)
         if self.pos < len(self.trace):
+            self._push(cond)
             return                      # replaying a known-feasible prefix
-        if self._holds(cond) is True:
+        if self._eval(cond) is True:
+            self._push(cond)
             return
-        if not check:
-            self.model = None
-            return
-        r = self._check(None)
+        r, upd = self._check([cond])
+        self._push(cond)
         if r == 'unsat':
             raise Abort('infeasible')
-        # 'sat' refreshed self.model; 'unknown' left it None
-
-    def _check(self, cond):
-        """satisfiability of pc (+ cond); on sat the model is kept in self._last_model"""
-        self.queries += 1
-        t = time.time()
-        self._last_model = None
-        if cond is not None:
-            self.solver.push()
-            self.solver.add(cond)
-        r = str(self.solver.check())
         if r == 'sat':
-            self._last_model = self.solver.model()
-            if cond is None:
-                self.model = self._last_model
-        elif cond is None:
-            self.model = None
-        if cond is not None:
-            self.solver.pop()
-        if r == 'unknown' and self.cvc5_branch:
-            from . import solve
-            q = self.pc + ([cond] if cond is not None else [])
-            if solve._uses_strings(q):
-                self.cvc5_branch_queries += 1
-                r = solve._WORKER.check(q, self.cvc5_branch_timeout).status
-        self.query_time += time.time() - t
-        return r
+            self._apply(upd)
+        else:
+            self.mvals = None
 
     def branch(self, cond):
         cond = _simp(cond)
@@ -516,50 +687,57 @@ class Engine:
             ent = self.trace[self.pos]
             choice = ent[0]
             self.pos += 1
-            c = cond if choice else z3.Not(cond)
-            self.pc.append(c)
-            self.solver.add(c)
+            self._push(cond if choice else z3.Not(cond))
             if self.pos == len(self.trace):
-                self.model = ent[2]     # model of the flipped side, found when it was proven sat
+                self.mvals = ent[2]     # model of the flipped side, found when it was proven sat
+                ent[2] = None
             return choice
         if len(self.trace) >= self.max_decisions:
             raise BoundHit('more than %d decisions on one path' % self.max_decisions)
-        h = self._holds(cond)
+        ncond = z3.Not(cond)
+        h = self._eval(cond)
+        base = self.mvals
         if h is None:
-            t = self._check(cond)
-            mt = self._last_model
-            f = self._check(z3.Not(cond))
-            mf = self._last_model
+            t, ut = self._check([cond])
+            f, uf = self._check([ncond])
             if t == 'unknown' or f == 'unknown':
                 self.unknown_branches += 1
             t, f = t != 'unsat', f != 'unsat'
             if not t and not f:
                 raise Abort('infeasible path')
+            mt = self._merged(base, ut) if t else None
+            mf = self._merged(base, uf) if f else None
         elif h:
-            t, mt = True, self.model
-            r = self._check(z3.Not(cond))
-            mf = self._last_model
+            t, mt = True, base
+            r, uf = self._check([ncond])
             if r == 'unknown':
                 self.unknown_branches += 1
             f = r != 'unsat'
+            mf = self._merged(base, uf) if r == 'sat' else None
         else:
-            f, mf = True, self.model
-            r = self._check(cond)
-            mt = self._last_model
+            f, mf = True, base
+            r, ut = self._check([cond])
             if r == 'unknown':
                 self.unknown_branches += 1
             t = r != 'unsat'
+            mt = self._merged(base, ut) if r == 'sat' else None
         if t:
             self.trace.append([True, f, mf])
-            choice, self.model = True, mt
+            choice, self.mvals = True, mt
         else:
             self.trace.append([False, False, None])
-            choice, self.model = False, mf
+            choice, self.mvals = False, mf
         self.pos += 1
-        c = cond if choice else z3.Not(cond)
-        self.pc.append(c)
-        self.solver.add(c)
+        self._push(cond if choice else ncond)
         return choice
+
+    @staticmethod
+    def _merged(base, upd):
+        if base is None or upd is None:
+            return None
+        m = dict(base)
+        m.update(upd)
+        return m
 
     def assume(self, cond):
         """constrain the inputs (part of the claim); an unsatisfiable assumption aborts the path"""
@@ -570,26 +748,52 @@ class Engine:
         self.add(c)
 
     def refute(self, conds, timeout_ms=3000):
-        """is  pc AND conds  satisfiable?  -> ('sat', model) | ('unsat', None) | ('unknown', None)
-        (incremental: the path condition is already asserted)"""
+        """is  pc AND conds  satisfiable?  -> (status, model dict | None, sliced assertions)"""
         conds = [_simp(c) for c in conds]
         if any(z3.is_false(c) for c in conds):
-            return 'unsat', None
-        if self.model is not None and all(self._holds(c) is True for c in conds):
-            return 'sat', self.model
+            return 'unsat', None, []
+        if self.mvals is not None and all(self._eval(c) is True for c in conds):
+            return 'sat', dict(self.mvals), list(self.pc) + conds
         self.queries += 1
         t = time.time()
-        self.solver.push()
-        self.solver.set('timeout', timeout_ms)
-        try:
-            self.solver.add(*conds)
-            r = str(self.solver.check())
-            m = self.solver.model() if r == 'sat' else None
-        finally:
-            self.solver.set('timeout', self.branch_timeout_ms)
-            self.solver.pop()
+        sl, closure = self.slice_for(conds)
+        q = sl + conds
+        r, m = self._solve(q, timeout_ms)
+        model = None
+        if r == 'sat':
+            upd = {}
+            uf = False
+            for a in q:
+                consts, ufs = term_symbols(a)
+                uf = uf or bool(ufs)
+                for n, c in consts.items():
+                    if n not in upd:
+                        upd[n] = m.eval(c, model_completion=True)
+            model = self._merged(self.full_model(), upd)
+            if uf:
+                model = None
+            self._last_zmodel = m
         self.query_time += time.time() - t
-        return r, m
+        return r, model, q
+
+    def full_model(self):
+        """a model of the whole path condition as a dict (solving if necessary); None if unknown"""
+        if self.mvals is None:
+            self.queries += 1
+            r, m = self._solve(self.pc, max(self.branch_timeout_ms, 2000))
+            if r != 'sat':
+                return None
+            vals = {}
+            for a in self.pc:
+                consts, ufs = term_symbols(a)
+                for n, c in consts.items():
+                    if n not in vals:
+                        vals[n] = m.eval(c, model_completion=True)
+            self._path_zmodel = m
+            if not any(term_symbols(a)[1] for a in self.pc):
+                self.mvals = vals
+            return vals
+        return self.mvals
 
     def choose(self, n, name='choice'):
         """nondeterministic concrete choice in range(n) (forking)"""
@@ -608,22 +812,20 @@ class Engine:
         while True:
             self.pos = 0
             self.pc = []
-            self.model = None
+            self.pc_syms = []
+            self.mvals = {} if not self.trace else None
             self.path_model = None
+            self._path_zmodel = None
             self.vars = {}
+            self.char_free = {}
             self._counter = {}
-            self.solver.push()
             prev = ENGINE
             ENGINE = self
             res = None
             try:
                 try:
-                    if not self.trace:
-                        self._check(None)       # model of the empty path condition
                     res = ('ok', fn())
-                    if self.model is None:
-                        self._check(None)
-                    self.path_model = self.model
+                    self.path_model = self.full_model()
                 except Abort:
                     res = None
                 except BoundHit as b:
@@ -639,11 +841,10 @@ class Engine:
                     cb()
                 self.on_path_end = []
                 ENGINE = prev
-                self.solver.pop()
             if res is not None:
                 self.paths += 1
                 yield PathResult(list(self.pc), res[0], res[1], [t[0] for t in self.trace[:self.pos]],
-                                 self.path_model)
+                                 self.path_model, self._path_zmodel)
                 if self.paths >= self.max_paths:
                     yield PathResult([], 'bound', 'path budget %d exhausted' % self.max_paths, [])
                     return
